@@ -128,8 +128,14 @@ def check_new(ctx, cfg, rule="context-binding"):
     sel = []  # (block, token name, param index)
     for bi, b in enumerate(fn.blocks):
         for s in b["stmts"]:
-            if s["k"] == "assign" and not s["place"]["proj"] and s["rv"]["k"] == "ref" and len(fn.defs().get(s["place"]["local"], [])) > 1:
-                tg = pts.resolve_place(s["rv"]["place"])
+            if s["k"] == "assign" and not s["place"]["proj"] and s["rv"]["k"] in ("ref", "use") and len(fn.defs().get(s["place"]["local"], [])) > 1:
+                if s["rv"]["k"] == "ref":
+                    tg = pts.resolve_place(s["rv"]["place"])
+                else:
+                    # a reference held in a local (e.g. the by-reference argument of an inlined helper)
+                    if s["rv"]["op"].get("k") not in ("copy", "move") or fn.local_ty(s["place"]["local"])["k"] not in ("ref", "refmut"):
+                        continue
+                    tg = pts._val_pts(s["rv"]["op"]) or set()
                 params = {r[1] for r, p in tg if r[0] == "loc" and not p and 1 <= r[1] <= fn.argc}
                 if len(params) != 1 or len(tg) != 1:
                     continue
